@@ -649,12 +649,14 @@ class Sym:
         labels = self.cfg.edge_label.get((a, s), [])
         v = self.switch_value(a)
         vals = [x for x, _ in t["targets"]]
+        d = t["discr"]
+        ty = d.get("ty") or (d.get("place") or {}).get("ty") or ""
         if labels == ["otherwise"]:
-            return [("isnot", v, tuple(vals))]
+            return [("isnot", v, tuple(vals), ty)]
         if "otherwise" in labels:
             return []
         if len(labels) == 1:
-            return [("is", v, labels[0])]
+            return [("is", v, labels[0], ty)]
         return []
 
     def guards(self, b):
